@@ -182,6 +182,27 @@ def run(ctx):
                    '' if not und else 'session state is written at line %d without a dominating liveness test' % und[0].lineno,
                    node=und[0].ast if und else None)
     ctx.floor('C32-LIVE', n_entry, 18, 'public object-bound operations examined')
+    # ---- a change is never *silently accepted*: the operations that change an object (and the notification hook of the tracked
+    # Json/array containers, which runs after the in-place change was made) cannot return normally without having passed the liveness test
+    n_ref = 0
+    for f in funcs:
+        if f.parent is not None or f.cls is None or f.cls not in obj_cls: continue
+        if f.name not in MUTATING | {'__set__', '__delete__', '_attr_changed_'}: continue
+        g, IN = flow(f)
+        tests = [n for n in g.nodes if n.kind == 'test' and '.is_alive' in norm(n.ast)]
+        if not tests: continue            # delegates (checked at the callee) 
+        n_ref += 1
+        allowed = {norm(ast.parse(k, mode='eval').body, limit=1000): v for k, v in NOOP_RETURNS.get(f.qual, {}).items()}
+        allowed_nodes = {n.id for n in g.nodes if n.kind == 'test' and norm(n.ast, limit=1000) in allowed}
+        for k in allowed: ctx.exception('C32-LIVE', '%s: `%s`' % (f.qual, k), allowed[k])
+        r = g.reach([g.entry], avoid=tests, edge_ok=lambda x, y, lab: not (x in allowed_nodes and lab == 'T'))
+        ok = g.exit.id not in r
+        p_ = None if ok else g.path(g.entry, g.exit, avoid=tests, edge_ok=lambda x, y, lab: not (x in allowed_nodes and lab == 'T'))
+        ctx.ob('C32-LIVE.change-is-never-silently-accepted', f, f.node, ok,
+               '' if ok else '%s can return normally without having tested that the object\'s session is alive (%s): for an object of a finished session the '
+               'change is accepted in memory without any error' % (f.qual, g.fmt_path(p_) if p_ else '?'), node=f.node,
+               expected='the liveness test before every return (no-op returns are listed in NOOP_RETURNS with their reason)')
+    ctx.floor('C32-LIVE', n_ref, 10, 'changing operations with their own liveness test')
     # ---- the flag the tests rely on: SessionCache.close marks the cache dead on every way out (before any early return)
     cl = repo.fn(CORE, 'SessionCache.close')
     g = cg.cfg(cl)
@@ -205,10 +226,17 @@ def run(ctx):
 
 # the descriptor API of the Attribute hierarchy; its other public-looking methods (validate, update_reverse, db_set, ...)
 # are the internal protocol between descriptors and are reached only through these or through Entity/SetInstance operations
+# early returns of changing operations that do nothing at all (test text -> reason)
+NOOP_RETURNS = {
+    'Set.__set__': {'isinstance(new_items, SetInstance) and new_items._obj_ is obj and new_items._attr_ is attr':
+                    'the write-back half of `obj.coll += x`: the change itself was made (or refused) by SetInstance.__iadd__/add'},
+    'Entity.flush': {"obj._status_ not in ('created', 'modified', 'marked_to_delete')": 'nothing to flush: no change is requested'},
+}
 ATTR_API = {'__get__', '__set__', '__delete__', 'load', 'copy'}
 MUTATING = {'set', 'delete', 'add', 'remove', 'clear', 'create', '__iadd__', '__isub__', 'flush', 'load', 'update'}
 
 MUTANTS = [
+    dict(id='C32-r1', file='pony/orm/core.py', fn='Entity._attr_changed_', old="        cache = obj._session_cache_\n        if cache is None or not cache.is_alive: throw_db_session_is_over('assign new value to', obj, attr)\n", new="        if obj._wbits_ is None or obj._wbits_ & obj._bits_[attr]: return\n        cache = obj._session_cache_\n        if cache is None or not cache.is_alive: throw_db_session_is_over('assign new value to', obj, attr)\n", expect='C32-LIVE.change-is-never'),
     dict(id='C32-m8', file='pony/orm/core.py', fn='SessionCache.close',
          old='        cache.is_alive = False\n        provider = database.provider\n        connection = cache.connection\n        if connection is None: return\n        cache.connection = None\n',
          new='        provider = database.provider\n        connection = cache.connection\n        if connection is None: return\n        cache.connection = None\n        cache.is_alive = False\n',
